@@ -225,7 +225,7 @@ func c06ChunkStream(r *Run) {
 		nops := 12
 		var ops []chunkOp
 		hashOn := false
-		remain := totalLen // generator-side estimate of what is left, only used to aim sizes at the end of input
+		remain := totalLen     // generator-side estimate of what is left, only used to aim sizes at the end of input
 		around := func() int { // sizes biased around chunk / buffer / end-of-input boundaries, mostly small
 			switch r.Rng.Intn(16) {
 			case 0:
